@@ -85,6 +85,9 @@ func keyPool(t *schema.Type, thorough bool) []poolKey {
 		}
 	default:
 		for _, v := range schema.Alphabet(t, true) {
+			if v.HasNaN() {
+				continue // NaN never equals itself: not a key value
+			}
 			add(v.Dev, v)
 			if len(pool) >= 6 && !thorough {
 				break
@@ -212,6 +215,9 @@ func checkBatch(w *World, gen string, r *schema.Resource, m *schema.Method, keys
 	}
 	if foreign != "" {
 		fk := otherKeyNotIn(ownKey, keys)
+		if fk == nil {
+			return "skip", "" // every value of the key type was requested: no foreign key exists
+		}
 		e := &BatchEntry{K: fk, Has: map[string]bool{foreign: true}, Status: 299}
 		if m.Name == "batch_get" {
 			e.Result = replyEntity(r.Schema, "foreign")
@@ -349,7 +355,18 @@ func otherKeyNotIn(t *schema.Type, keys []poolKey) *schema.V {
 			return k.v
 		}
 	}
-	return otherKey(t, avoid...)
+	for _, k := range keyAlphabet(t, true) {
+		ok := true
+		for _, a := range avoid {
+			if keyPartEqual(k, a) {
+				ok = false
+			}
+		}
+		if ok {
+			return k
+		}
+	}
+	return nil
 }
 
 func partC16(a *hcli.Args, rep *report.Report, univName string, u *schema.Universe) {
@@ -423,16 +440,26 @@ func partC16(a *hcli.Args, rep *report.Report, univName string, u *schema.Univer
 				run(keys, assign, "")
 			})
 			// base key set: all assignments, and foreign keys
-			base := []poolKey{pool[0], pool[2], pool[len(pool)-1]}
-			for a0 := 0; a0 < 8; a0++ {
-				for a1 := 0; a1 < 8; a1++ {
-					for a2 := 0; a2 < 8; a2++ {
-						run(base, []int{a0, a1, a2}, "")
-					}
+			var base []poolKey
+			for _, i := range []int{0, 2, len(pool) - 1} {
+				// (key types with fewer than three values, e.g. bool, give a smaller base set)
+				if i >= 0 && i < len(pool) && (len(base) == 0 || !keyPartEqual(base[len(base)-1].v, pool[i].v)) && (len(base) < 2 || !keyPartEqual(base[0].v, pool[i].v)) {
+					base = append(base, pool[i])
 				}
 			}
+			var rec func(assign []int)
+			rec = func(assign []int) {
+				if len(assign) == len(base) {
+					run(base, append([]int{}, assign...), "")
+					return
+				}
+				for x := 0; x < 8; x++ {
+					rec(append(assign, x))
+				}
+			}
+			rec(nil)
 			for _, f := range []string{"results", "statuses", "errors"} {
-				run(base, []int{0, 1, 2}, f)
+				run(base, []int{0, 1, 2}[:len(base)], f)
 				run(base[:1], []int{7}, f)
 			}
 		}
